@@ -145,6 +145,14 @@ def correspondence(ctx):
         "close non-matching name, DISALLOW, CREATE, DELETE, MODIFY, ALLOW followed by REQUIRE of the consumed name, MATCH without "
         "prefix / IN source prefix / IN destination prefix / both); the random generator draws such patterns (fixed ones and ones "
         "derived from a recorded name: last character as class or escape behind a star) with probability about 1/4; "
+        "long-names classes (long-names-<form>): artifact paths and patterns of 255, 256, 1023, 1024, 4095, 4096, 4097, 8192 and 65536 "
+        "bytes (one long segment, a deep path of 2-byte segments, a long segment below a directory) in the forms disallow-star "
+        "(long extra product must be rejected), disallow-literal, allow-literal, allow-star, create-star, delete-literal, "
+        "modify-star, require, match-literal, match-star, match-in-prefix (consumption observed by a REQUIRE of the long name "
+        "behind the rule) and class-pattern (a character class of that many bytes selecting a short name); implementation vs "
+        "oracle vs extracted model, except: deep paths above 8192 bytes (the model's path cleaning is quadratic in the number of "
+        "segments; one such case goes through the model in the thorough tier) and three 1 MiB cases are implementation vs "
+        "oracle only; the cases.v tier (vm_compute) carries eight long-name cases up to 1024 bytes; "
         "rooted classes: absolute artifact paths with MATCH prefixes "
         "that clean to '/' ('/', '//', '/./', '/x/..'), absolute directories, '.', './', a prefix equal to a whole path, as source "
         "prefix, destination prefix and both. Rooted paths are excluded from the well-formed inputs of C03_model_eq_spec "
